@@ -8,20 +8,19 @@ LEVEL = 'proof'
 PROPS = ['Props/C23.v']
 from py2coq import containsorder
 GEN = [('Gen/ContainsOrder.v', containsorder.generate)]
-EXPLANATION = ('Two parts. (1) A Coq 8.16.1 proof, closed under the global context, of the pure lemma C23_batch_criteria: for every number of key '
-               'columns, every non-empty batch of keys, every start offset and both values of row_value_syntax, the WHERE criteria built by '
-               'construct_batchload_criteria_list (shapes: "=" per column, IN, row-value IN, OR of ANDs) are true of a row exactly when the row\'s key is '
-               'one of the batch keys. The model of that function is hand-written and compared on every run with the real function (exhaustive small '
-               'shapes, structural equality by vm_compute) and its reading of the four SQL shapes is validated against SQLite executing the SQL the '
-               'real builder produces. (2) Everything else in the property (merging fetched rows into partially loaded objects and collections: '
-               'Set.load, prefetch, seeds, lazy attributes) is NOT proved: generated programs are run on SQLite under five regimes (default, every '
-               'attribute lazy, prefetch of every relation, nplus1_threshold=0, nplus1_threshold=10**9) and must produce identical observations. '
-               'Also proved: membership answered from memory is never False after an in-session add and never True after a remove, for the check order of '
-               'SetInstance.__contains__ read from the source on every run (C23_contains_after_add / _remove). '
-               'The rest is differential testing with a seeded generator; the level claimed is therefore "other", not "proof".')
+EXPLANATION = ('Level "proof" refers to the collection core, not to whole programs. Proved (Coq 8.16.1, closed under the global context, hand models tied by '
+               'vm_compute correspondence on every run): (1) for one owner and its collection - many-to-many, and one-to-many incl. the item side - every '
+               'loading path (whole-collection load = batch member = prefetch, load of the asked items, flush, an item\'s row being fetched) keeps the SetData '
+               'consistent with the link rows and iteration / len / count / contains / is_empty are functions of the abstract collection only, so they agree '
+               'whichever paths ran; add / remove change it by exactly the item; (2) the batch WHERE criteria select exactly the batch keys; (3) membership '
+               'after in-session add / remove for the check order of SetInstance.__contains__ read from the source; (4) a scalar read returns the written or '
+               'the database value after any row merges, lazy or not. NOT proved: the statement over whole programs (several entities, seeds, prefetch '
+               'traversal, Set.__set__ assignment, the many-to-many other side): generated programs are run on SQLite under five regimes (default, every '
+               'attribute lazy, prefetch of every relation, nplus1_threshold=0, nplus1_threshold=10**9) and must produce identical observations - '
+               'differential testing with a seeded generator.')
 TRUSTED = [
     'hand models Model/C23Load.v (Set.load / load(obj, items) / batch / flush / count / is_empty / __contains__ / add / remove on one owner\'s many-to-many '
-    'SetData) and Model/C23Scalar.v; the former tied on every run to the real SetData fields after each step of generated histories (invariant as a boolean, '
+    'SetData; the same for one-to-many collections plus the item side: load_item = db_reverse_add, loaded set, link invariant) and Model/C23Scalar.v; the former tied on every run to the real SetData fields after each step of generated histories (invariant as a boolean, '
     'result, next state), the latter only through the differential runs',
     'tools/py2coq/containsorder.py (ast scan of the early-exit checks of SetInstance.__contains__, fail-closed) and the hand model Model/C23SetData.v of SetData / add / remove',
     'hand-written model Model/C23Batch.v of construct_batchload_criteria_list and of the meaning of EQ / IN / row-value IN / OR-of-ANDs on non-NULL integer keys',
@@ -34,8 +33,10 @@ ASSUMPTIONS = [
     'SQLite only; its translator sets row_value_syntax = False, so end to end only the "=", IN and OR-of-ANDs shapes occur; the row-value shape is covered by the lemma, the structural correspondence and the SQL-semantics validation (SQLite executes row values when given them)',
 ]
 RULE = ('lemma tie: exhaustive shapes ncols 1..3 x batch 1..4 x start 0..2 x row_value_syntax, plus SQL-semantics cases on SQLite; differential: seeded random '
-        'programs (0-3 groups, 0-6 students, 0-4 courses with a composite key, random enrolments; 3-9 steps: get / select / reference / attribute / '
-        'collection list,len,count,is_empty,contains,bool / per-object sweeps / unflushed add, remove, re-point / flush), each under five regimes; '
+        'programs (0-3 groups, 1-7 students, 0-5 courses with a composite key, random enrolments; 5-14 steps: get / select / reference / attribute / '
+        'collection list,len,count,is_empty,contains,bool / per-object sweeps / unflushed add, remove (from either side, also on the one-to-many collection), '
+        're-point / flush / membership windows), each under five regimes; SetData tie: generated histories on one owner (m2m and o2m, students loaded one by one) '
+        'with len, iter, count, is_empty, contains, add, remove, reverse-side changes, assignment, flush, loads of other owners; '
         'non-trivial = the regimes issued different numbers of SELECTs for the program; distinct = distinct program JSON')
 
 
@@ -198,6 +199,7 @@ def gen_coll_history(rng):
                         'add_rev', 'remove_rev', 'flush', 'other_len'])
         if k in ('contains', 'add', 'remove', 'add_rev', 'remove_rev'): ops.append([k, rng.randrange(n)])
         elif k == 'other_len': ops.append([k, rng.choice([2, 3])])
+        elif k == 'flush' and rng.random() < 0.5: ops.append(['assign', sorted(rng.sample(range(n), rng.randint(0, n)))])
         else: ops.append([k])
     kind = rng.choice(['m2m', 'm2m', 'o2m'])
     lazy_items = kind == 'o2m' and rng.random() < 0.6
@@ -207,6 +209,7 @@ def gen_coll_history(rng):
             if rng.random() < 0.5: ops2.append(['load_item', rng.randrange(n)])
             ops2.append(o)
         ops = ops2
+    if kind == 'o2m': ops = [o for o in ops if o[0] != 'assign']
     if kind == 'o2m': ops = [(['len'] if o[0] == 'other_len' and rng.random() < 0.5 else ([o[0]] if o[0] == 'other_len' else o)) for o in ops]
     return {'kind': kind, 'lazy_items': lazy_items, 'regime': rng.choice(['default', 'np0', 'nphuge', 'lazy']), 'courses': n, 'rows': rows, 'others': others,
             'preload': rng.choice(['none', 'none', 'partial', 'full']), 'ops': ops}
